@@ -3,7 +3,7 @@ EXTENDS Cache, TLC
 Next ==
   \/ \E r \in Replica : CNew(r)
   \/ \E r \in Replica, b \in Bugs : CEdit(r, b) \/ CCommit(r, b) \/ CRemove(r, b)
-  \/ \E r \in Replica : CPush(r) \/ CPull(r) \/ CReopen(r)
+  \/ \E r \in Replica : CPush(r) \/ CPull(r) \/ CFetch(r) \/ CReopen(r)
   \/ \E r \in Replica, n \in 1..MaxSize : CResolveAll(r, n)
 Spec == Init /\ [][Next]_vars
 =============================================================================
